@@ -576,6 +576,38 @@ fn check_defaults(rep: &mut Report, rng: &mut Rng, index: u64) {
     }
 }
 
+/// (d') the getInfo response's option map has defaults of its own (CTAP 2.0 §5.4: plat false, rk false,
+/// up true; clientPin and uv absent)
+fn check_info_option_defaults(rep: &mut Report, rng: &mut Rng, index: u64) {
+    let (gi, _) = gen_gi_resp(rng);
+    let bytes = ser(&gi).unwrap();
+    let val = oracle::cbor_parse(&bytes).unwrap();
+    let entries = val.as_map().unwrap().clone();
+    for variant in 0..3 {
+        rep.eval();
+        let mut e: Vec<(Cbor, Cbor)> = entries.iter().filter(|(k, _)| oracle::cbor_int(k) != Some(4)).cloned().collect();
+        let (label, opts, want): (&str, Vec<(Cbor, Cbor)>, (bool, bool, bool)) = match variant {
+            0 => ("options = {}", vec![], (false, false, true)),
+            1 => ("options = {rk:true, clientPin:false}", vec![(Cbor::Text("rk".into()), Cbor::Bool(true)), (Cbor::Text("clientPin".into()), Cbor::Bool(false))], (false, true, true)),
+            _ => ("options = {plat:true, up:false}", vec![(Cbor::Text("plat".into()), Cbor::Bool(true)), (Cbor::Text("up".into()), Cbor::Bool(false))], (true, false, false)),
+        };
+        e.push((Cbor::Integer(4.into()), Cbor::Map(opts)));
+        let b = oracle::cbor_ser(&Cbor::Map(e));
+        let case = json!({"index": index, "type": "getInfo response", "variant": label});
+        match catch(|| de::<get_info::Response>(&b).map(|r| r.options.map(|o| (o.plat, o.rk, o.up)))) {
+            Ok(Ok(Some(g))) => {
+                if g != want {
+                    rep.violate("getInfo response: absent option members do not take the defaults plat=false, rk=false, up=true", format!("{label}: got plat={} rk={} up={}", g.0, g.1, g.2), case);
+                }
+                rep.count("info_defaults_checked");
+            }
+            Ok(Ok(None)) => rep.violate("getInfo response: options member present on the wire is absent after decoding", label.into(), case),
+            Ok(Err(e)) => rep.violate("getInfo response: response with a partial options map is rejected", format!("{label}: {e}"), case),
+            Err((sig, d)) => rep.violate(&format!("getInfo response: defaults {sig}"), d, case),
+        }
+    }
+}
+
 fn status_bytes(rep: &mut Report, only: Option<u64>) {
     // (f) u8 -> StatusCode -> u8 is the identity and injective
     let all: Vec<StatusCode> = (0..=255u8).map(StatusCode::from).collect();
@@ -684,6 +716,7 @@ pub fn run(args: &Args) -> Report {
         if only.map_or(true, |o| o == i * 10 + 9) {
             let mut rng = Rng::derive(args.seed, "c13d", i);
             check_defaults(cx.rep, &mut rng, i * 10 + 9);
+            check_info_option_defaults(cx.rep, &mut rng, i * 10 + 9);
         }
     }
     status_bytes(&mut rep, only);
